@@ -20,13 +20,15 @@ go build ./... || { echo "RESULT $SRC: does not build"; exit 1; }
 out1=$(go test -count=1 -run "$RUN" $PKG 2>&1); rc1=$?
 # existing suite with the patch (demo removed first)
 rm -f $DEST/*demo*_test.go $DEST/demo*_test.go; [ -z "$(ls -A $DEST 2>/dev/null)" ] && rmdir $DEST 2>/dev/null
-suite=$(go test -count=1 ./... 2>&1 | grep -E "^(--- FAIL|FAIL|panic)" | grep -v "BroadcastIP" | grep -v "^FAIL$" )
-failing=$(echo "$suite" | grep -- "--- FAIL" | tr '\n' ' ')
-if [ -n "$failing" ]; then
-  # retry failing packages once (flaky under load)
-  suite2=$(go test -count=1 ./... 2>&1 | grep -E "^--- FAIL" | grep -v "BroadcastIP" | tr '\n' ' ')
-  failing="$suite2"
-fi
+# a test counts as failing only if it fails in each of up to three runs of the suite
+# (0.00 s failures on a loaded machine are port collisions with other processes)
+failing=""
+for attempt in 1 2 3; do
+  now=$(go test -count=1 ./... 2>&1 | grep -E "^--- FAIL" | grep -v "BroadcastIP" | sed 's/ (.*//' | sort -u)
+  if [ $attempt -eq 1 ]; then failing="$now"; else failing=$(comm -12 <(echo "$failing") <(echo "$now")); fi
+  [ -z "$failing" ] && break
+done
+failing=$(echo "$failing" | tr '\n' ' ' | sed 's/ *$//')
 echo "RESULT $SRC: demo-without=$rc0 demo-with=$rc1 suite-failures=[${failing}]"
 if [ $rc0 -eq 0 ] && [ $rc1 -ne 0 ] && [ -z "$failing" ]; then exit 0; fi
 echo "--- demo without patch ---"; echo "$out0" | tail -5
